@@ -332,6 +332,38 @@ def run(scenario, world):
         elif o == 'make_gen':
             gens[op['name']] = rng_seam._REAL_DEFAULT_RNG(op['seed'])
             twins[op['name']] = rng_seam._REAL_DEFAULT_RNG(op['seed'])
+        elif o == 'unseeded_twice':
+            # two unseeded calls in a row are two different draws: the
+            # parameter sets drawn from the prior must not repeat
+            h = op['entry']
+            if h not in entries or entries[h].kind != 'priorpred':
+                continue
+            e = entries[h]
+            args = e.recipe['args'][op['args'] % len(e.recipe['args'])]
+            prior = e.obj._log_prior
+            orig = prior.sample
+            seen = []
+
+            def spy(*a_, **k_):
+                v_ = orig(*a_, **k_)
+                seen.append(tuple(np.asarray(v_, dtype=float).ravel()
+                                  .tolist()))
+                return v_
+            prior.sample = spy
+            try:
+                r1 = call(e.draw, args, None)
+                n1 = len(seen)
+                r2 = call(e.draw, args, None)
+            finally:
+                del prior.sample
+            if not is_exc(r1) and not is_exc(r2) and n1 and \
+                    seen[:n1] == seen[n1:]:
+                raise Violation(
+                    'D2.unseeded_calls', 'same_prior_draws',
+                    'priorpred args %d: two consecutive unseeded calls drew '
+                    'the same %d parameter sets from the prior: %s' % (
+                        op['args'], n1, short(seen[:n1], 300)), step)
+            world.probe('unseeded_calls_differ')
         elif o == 'replacement_probe':
             # D4 for the choice of posterior draws: the samples of one call
             # are backed by INDEPENDENT draws from the posterior, so with as
@@ -730,6 +762,10 @@ def generate(rng, index, tier):
                 ops.append({'op': 'bad_draw', 'entry': h,
                             'args': rng.randint(0, 1)})
     for i_, r_ in enumerate(recipes):
+        if r_['kind'] == 'priorpred' and rng.random() < 0.4:
+            ops.insert(rng.randint(0, len(ops)),
+                       {'op': 'unseeded_twice', 'entry': 'e%d' % i_,
+                        'args': rng.randint(0, 1)})
         if r_['kind'] == 'postpred' and rng.random() < 0.3:
             ops.insert(rng.randint(0, len(ops)),
                        {'op': 'replacement_probe', 'entry': 'e%d' % i_})
